@@ -41,6 +41,8 @@ enum Op {
     Withdraw { assets: i128, receiver: usize, owner: usize, operator: usize },
     Redeem { shares: i128, receiver: usize, owner: usize, operator: usize },
     ShareTransfer { from: usize, to: usize, a: i128 },
+    /// allowance-based movement of the share token itself
+    ShareTransferFrom { sp: usize, from: usize, to: usize, a: i128 },
     ShareApprove { owner: usize, sp: usize, a: i128, l: u32 },
     AssetApprove { owner: usize, sp: usize, a: i128, l: u32 },
     Donate { from: usize, a: i128 },
@@ -55,6 +57,7 @@ impl Op {
             Op::Withdraw { .. } => "withdraw",
             Op::Redeem { .. } => "redeem",
             Op::ShareTransfer { .. } => "transfer",
+            Op::ShareTransferFrom { .. } => "transfer_from",
             Op::ShareApprove { .. } => "approve",
             Op::AssetApprove { .. } => "asset.approve",
             Op::Donate { .. } => "asset.donate",
@@ -238,7 +241,12 @@ pub fn history(cfg: &Cfg, rep: &mut Report, h: u64, steps: usize, mode: Mode, of
                         Op::Withdraw { assets: amt(&mut rng, &[mw, a_tot]), receiver: x, owner: y, operator: z_or(y, z, &mut rng) }
                     }
                     53..=70 => Op::Redeem { shares: amt(&mut rng, &[pre.shares[y], al(&share_allow, y, z)]), receiver: x, owner: y, operator: z_or(y, z, &mut rng) },
-                    71..=77 => Op::ShareTransfer { from: y, to: if rng.chance(1, 12) { vi } else { x }, a: amt(&mut rng, &[pre.shares[y]]) },
+                    71..=74 => Op::ShareTransfer { from: y, to: if rng.chance(1, 12) { vi } else { x }, a: amt(&mut rng, &[pre.shares[y]]) },
+                    75..=77 => {
+                        // spender: somebody with an allowance on record when there is one
+                        let sp = share_allow.keys().filter(|(o, _)| *o == y).map(|(_, s)| *s).next().unwrap_or_else(|| rng.idx(nu));
+                        Op::ShareTransferFrom { sp, from: y, to: if rng.chance(1, 4) { sp } else { x }, a: amt(&mut rng, &[pre.shares[y], al(&share_allow, y, sp)]) }
+                    }
                     78..=85 => Op::ShareApprove { owner: y, sp: rng.idx(nu), a: amt(&mut rng, &[pre.shares[y]]).max(0), l: cur + rng.below(50) as u32 },
                     86..=91 => Op::AssetApprove { owner: y, sp: rng.idx(nu), a: amt(&mut rng, &[pre.assets[y]]).max(0), l: cur + rng.below(50) as u32 },
                     92..=96 => Op::Donate { from: y, a: amt(&mut rng, &[pre.assets[y], a_tot]).max(0) },
@@ -297,6 +305,7 @@ pub fn history(cfg: &Cfg, rep: &mut Report, h: u64, steps: usize, mode: Mode, of
                 }
             }
             Op::ShareTransfer { from, a, .. } => if *a >= 0 && pre.shares[*from] >= *a { Some((0, *a)) } else { None },
+            Op::ShareTransferFrom { sp, from, a, .. } => if *a >= 0 && pre.shares[*from] >= *a && sh_al(*from, *sp) >= *a { Some((0, *a)) } else { None },
             Op::ShareApprove { .. } | Op::AssetApprove { .. } => Some((0, 0)),
             Op::Donate { from, a } => if pre.assets[*from] >= *a { Some((*a, 0)) } else { None },
             Op::AssetMint { a, .. } => {
@@ -368,6 +377,7 @@ pub fn history(cfg: &Cfg, rep: &mut Report, h: u64, steps: usize, mode: Mode, of
             Op::Withdraw { assets, receiver, owner, operator } => (&vault, "withdraw", args!(e, *assets, v.u[*receiver], v.u[*owner], v.u[*operator]), *operator, None),
             Op::Redeem { shares, receiver, owner, operator } => (&vault, "redeem", args!(e, *shares, v.u[*receiver], v.u[*owner], v.u[*operator]), *operator, None),
             Op::ShareTransfer { from, to, a } => (&vault, "transfer", args!(e, v.u[*from], v.u[*to], *a), *from, None),
+            Op::ShareTransferFrom { sp, from, to, a } => (&vault, "transfer_from", args!(e, v.u[*sp], v.u[*from], v.u[*to], *a), *sp, None),
             Op::ShareApprove { owner, sp, a, l } => (&vault, "approve", args!(e, v.u[*owner], v.u[*sp], *a, *l), *owner, None),
             Op::AssetApprove { owner, sp, a, l } => (&asset, "approve", args!(e, v.u[*owner], v.u[*sp], *a, *l), *owner, None),
             Op::Donate { from, a } => (&asset, "transfer", args!(e, v.u[*from], vault, *a), *from, None),
@@ -376,7 +386,7 @@ pub fn history(cfg: &Cfg, rep: &mut Report, h: u64, steps: usize, mode: Mode, of
         // authorization: C02 mode signs with a chosen subset, the other modes mock everything
         let mut signers: Vec<usize> = vec![];
         let mut authorized = true;
-        let vault_op = matches!(op, Op::Deposit { .. } | Op::Mint { .. } | Op::Withdraw { .. } | Op::Redeem { .. } | Op::ShareTransfer { .. } | Op::ShareApprove { .. });
+        let vault_op = matches!(op, Op::Deposit { .. } | Op::Mint { .. } | Op::Withdraw { .. } | Op::Redeem { .. } | Op::ShareTransfer { .. } | Op::ShareTransferFrom { .. } | Op::ShareApprove { .. });
         if mode == Mode::Auth && vault_op {
             signers = if rng.chance(1, 2) {
                 vec![principal]
@@ -501,6 +511,14 @@ pub fn history(cfg: &Cfg, rep: &mut Report, h: u64, steps: usize, mode: Mode, of
                             want.shares[*from] -= a;
                             want.shares[*to] += a;
                         }
+                        Op::ShareTransferFrom { sp, from, to, a } => {
+                            want.shares[*from] -= a;
+                            want.shares[*to] += a;
+                            if *a > 0 {
+                                want.share_allow[*from * n + *sp] -= a;
+                                share_allow.get_mut(&(*from, *sp)).map(|x| x.0 -= a);
+                            }
+                        }
                         Op::ShareApprove { owner, sp, a, .. } => want.share_allow[*owner * n + *sp] = *a,
                         Op::AssetApprove { owner, sp, a, .. } => want.asset_allow[*owner * n + *sp] = *a,
                         Op::Donate { from, a } => {
@@ -583,6 +601,7 @@ pub fn history(cfg: &Cfg, rep: &mut Report, h: u64, steps: usize, mode: Mode, of
                                     *owner == hld && signers.contains(operator) && (operator == owner || pre.share_allow[hld * n + *operator] >= dec)
                                 }
                                 Op::ShareTransfer { from, .. } => *from == hld && signers.contains(&hld),
+                                Op::ShareTransferFrom { sp, from, .. } => *from == hld && signers.contains(sp) && pre.share_allow[hld * n + *sp] >= dec,
                                 _ => false,
                             };
                             rep.check("decrease", ok, &format!("C02/decrease/{site}/unauthorized-share-decrease"), || {
